@@ -34,10 +34,15 @@ EXTENDS Integers, Sequences, FiniteSets, TLC, Json, IOUtils
 
 \* everything that varies comes from the data file: a sequence of FAMILIES, each
 \*   [name, mode "lit" | "ident" | "dotted" | "scalar", chars (alphabet), maxlen, maxparts, expect, <family parameters>]
-\* (read once into TLC register 1: a Java-implemented operator is not cached like a constant definition)
-ASSUME TLCSet(1, JsonDeserialize(IOEnv.LEX_DATA))
-D == TLCGet(1)
 ToSet(q) == {q[i] : i \in 1..Len(q)}
+\* read once into TLC registers (a Java-implemented operator is not cached like a constant definition, and the per-family
+\* sets would otherwise be rebuilt from their sequences at every reference): 1 = the data, 2 = the sets of each family
+ASSUME /\ TLCSet(1, JsonDeserialize(IOEnv.LEX_DATA))
+       /\ TLCSet(2, [i \in 1..Len(TLCGet(1).fams) |->
+                       LET G == TLCGet(1).fams[i] IN
+                       [reserved |-> ToSet(G.reserved), legal |-> ToSet(G.legal), bad |-> ToSet(G.illegal_initial),
+                        kw |-> ToSet(G.keywords), words |-> ToSet(G.words)]])
+D == TLCGet(1)
 NF == Len(D.fams)
 VARIABLES f,         \* index of the family (dialect configuration) of this case
           x, out
@@ -62,18 +67,19 @@ IQ == CASE Backend = "mysql" -> "`" [] Backend = "mssql" -> "[" [] OTHER -> "\""
 FQ == CASE Backend = "mysql" -> "`" [] Backend = "mssql" -> "]" [] OTHER -> "\""
 EscQ == FQ
 \* data extracted from the working tree
-Reserved == ToSet(F.reserved)             \* IdentifierPreparer.reserved_words (sequences of characters)
-Legal == ToSet(F.legal)                   \* characters c with legal_characters.match(c)
-BadInit == ToSet(F.illegal_initial)       \* illegal_initial_characters
-KW == ToSet(F.keywords)                   \* words the BACKEND refuses as a bare identifier (measured / assumed)
-Words == F.words                          \* extra names to enumerate (keywords, long names)
+Reserved == TLCGet(2)[f].reserved           \* IdentifierPreparer.reserved_words (sequences of characters)
+Legal == TLCGet(2)[f].legal                 \* characters c with legal_characters.match(c)
+BadInit == TLCGet(2)[f].bad            \* illegal_initial_characters
+KW == TLCGet(2)[f].kw                   \* words the BACKEND refuses as a bare identifier (measured / assumed)
+WordSet == TLCGet(2)[f].words                   \* extra names to enumerate (keywords, long names)
 Expect == F.expect                        \* FALSE for the deliberately mismatched families (sensitivity of the theorem)
 
 Upper == <<"A","B","C","D","E","F","G","H","I","J","K","L","M","N","O","P","Q","R","S","T","U","V","W","X","Y","Z">>
 LowerL == <<"a","b","c","d","e","f","g","h","i","j","k","l","m","n","o","p","q","r","s","t","u","v","w","x","y","z">>
 Digits == {"0","1","2","3","4","5","6","7","8","9"}
 Letters == ToSet(Upper) \cup ToSet(LowerL)
-LowerC(c) == IF c \in ToSet(Upper) THEN LowerL[CHOOSE i \in 1..26 : Upper[i] = c] ELSE c
+LowerMap == [c \in ToSet(Upper) |-> LowerL[CHOOSE i \in 1..26 : Upper[i] = c]]
+LowerC(c) == IF c \in DOMAIN LowerMap THEN LowerMap[c] ELSE c
 LowerS(s) == [i \in 1..Len(s) |-> LowerC(s[i])]
 WordChars == Letters \cup Digits \cup {"_", "$", "~"}
 
@@ -82,7 +88,7 @@ Pow(b, n) == IF n = 0 THEN 1 ELSE b * Pow(b, n - 1)
 OfLen(m) == {[i \in 1..m |-> Chars[(((k - 1) \div Pow(B, m - i)) % B) + 1]] : k \in 1..Pow(B, m)}
 UpTo(n) == UNION {OfLen(m) : m \in 0..n}
 Strings == UpTo(MaxLen)
-Names == (Strings \ {<<>>}) \cup ToSet(Words)
+Names == (Strings \ {<<>>}) \cup WordSet
 
 \* ================================================================ the DBAPI's % formatting (format / pyformat)
 RECURSIVE Halve(_)
@@ -224,7 +230,7 @@ Unformat(text, i) ==
        THEN LET j == Max(Closers(text, i)) IN <<UnescId(SubSeq(text, i + 1, j - 1))>> \o Unformat(text, j + 1)
   ELSE IF text[i] # "." THEN LET e == RunEnd(text, i) IN <<UnescId(SubSeq(text, i, e - 1))>> \o Unformat(text, e)
   ELSE Unformat(text, i + 1)
-PartNames == {n \in Names : Len(n) <= MaxLen}
+PartNames == Names
 DottedOKFor(parts) == (\A k \in 1..Len(parts) : Representable(parts[k])) =>
    LET text == Deliver(Format(parts)) toks == Lex(text) IN
    /\ Len(toks) = 2 * Len(parts) - 1
